@@ -4,6 +4,10 @@ Relational semantics are not decided.  Decided:
 R20.1 delimited writers speak the reader's dialect (csv.reader, dialect="excel")
 R20.2 the listed table operations do not mutate the table they are called on (L5)
 R20.3 every self.<method>() call on the write paths resolves in the class's MRO
+
+Added in build round 2 (see DESIGN.md section 3, round-2 table):
+R20.4 the delimited reader keeps every record: in load_delimited each row the csv reader yields is appended unchanged (no filtering `continue`, no ...
+R20.5 cells form an equality domain only (a column of mixed types or with missing values is an object array whose elements cannot be ordered): the ...
 """
 
 from __future__ import annotations
